@@ -31,13 +31,15 @@ type arElem struct {
 	Sub  []*arElem `json:"sub"`
 	Plus bool      `json:"plus"`
 	Sep  int       `json:"sep"` // list: separator terminal, 0 if none
+	Mark []string  `json:"mark"` // state markers written before the element
 }
 
 type arRef struct {
 	Form  string `json:"form"`  // name pos first last left
 	Name  string `json:"name"`  // as written after $
 	Terms []int  `json:"terms"` // terminals (compiled numbering) whose tokens make up the referenced element
-	Val   string `json:"val"`   // term nonterm none: what $x evaluates to, if emitted
+	Val   string `json:"val"`   // term nonterm mixed none: what $x evaluates to, if emitted
+	HTerms []int `json:"hterms"` // those of Terms that belong to helper nonterminals (their value is 1000 + offset)
 }
 
 type arAction struct {
@@ -353,6 +355,8 @@ func verifRec(id int, rule int32, stack []stackEntry, vals ...interface{}) {
 			rec = append(rec, -1)
 		case int:
 			rec = append(rec, x)
+		case int64:
+			rec = append(rec, int(x))
 		default:
 			rec = append(rec, -2)
 		}
@@ -459,7 +463,7 @@ func (c *arCase) render(helpers map[int]int, nterms int) string {
 	}
 	sort.Ints(hs)
 	for _, h := range hs {
-		fmt.Fprintf(&b, "%s {int}: %s { lhs.value = 1000 + lhs.sym.offset } ;\n\n", arHelper(h), arTerm(helpers[h]))
+		fmt.Fprintf(&b, "%s {int64}: %s { lhs.value = int64(1000 + lhs.sym.offset) } ;\n\n", arHelper(h), arTerm(helpers[h]))
 	}
 	for i := range c.Rules {
 		r := &c.Rules[i]
@@ -489,6 +493,9 @@ func (c *arCase) render(helpers map[int]int, nterms int) string {
 					b.WriteString(code(&r.Actions[ai]))
 				}
 			}
+			for _, m := range e.Mark {
+				b.WriteString(" ." + m)
+			}
 			b.WriteString(" " + e.render())
 		}
 		for ai := range r.Actions {
@@ -517,6 +524,7 @@ func c16Gen(args []string) error {
 	}
 	cases := make([]arCase, n)
 	texts := make([][]string, n)
+	helperTerms := make([][]int, n)
 	for id := 0; id < n; id++ {
 	again:
 		c := &cases[id]
@@ -566,6 +574,13 @@ func c16Gen(args []string) error {
 			}
 			if r.Intn(4) > 0 {
 				rule.Actions = append(rule.Actions, mk(false, r.Intn(len(rule.Elems))))
+			} else {
+				// state markers (they cannot be mixed with mid-rule actions)
+				for _, e := range rule.Elems {
+					for r.Intn(3) == 0 {
+						e.Mark = append(e.Mark, fmt.Sprintf("m%d", r.Intn(3)))
+					}
+				}
 			}
 			rule.Actions = append(rule.Actions, mk(true, len(rule.Elems)))
 			c.Rules = append(c.Rules, rule)
@@ -574,6 +589,10 @@ func c16Gen(args []string) error {
 			goto again // one letter per terminal
 		}
 		c.NTerms = g.nextT
+		helperTerms[id] = nil
+		for _, t := range g.helpers {
+			helperTerms[id] = append(helperTerms[id], t)
+		}
 		c.TM = c.render(g.helpers, g.nextT) + c16Adapter
 		// sentences
 		for k := 0; k < 25; k++ {
@@ -627,7 +646,13 @@ func c16Gen(args []string) error {
 				for ai := range rule.Actions {
 					for k := range rule.Actions[ai].Refs {
 						ref := &rule.Actions[ai].Refs[k]
+						ref.HTerms = []int{}
 						for x := range ref.Terms {
+							for _, ht := range helperTerms[c.ID] {
+								if ht == ref.Terms[x] {
+									ref.HTerms = append(ref.HTerms, tr(ht))
+								}
+							}
 							ref.Terms[x] = tr(ref.Terms[x])
 						}
 						if ref.Terms == nil {
@@ -757,6 +782,9 @@ func c16Gen(args []string) error {
 					if a.Refs[k].Terms == nil {
 						a.Refs[k].Terms = []int{}
 					}
+					if a.Refs[k].HTerms == nil {
+						a.Refs[k].HTerms = []int{}
+					}
 				}
 			}
 		}
@@ -770,6 +798,9 @@ func c16Gen(args []string) error {
 func (e *arElem) normalize() {
 	if e.Sub == nil {
 		e.Sub = []*arElem{}
+	}
+	if e.Mark == nil {
+		e.Mark = []string{}
 	}
 	for _, s := range e.Sub {
 		s.normalize()
